@@ -492,10 +492,10 @@ M('R23-eigh-overwrite', 'R23',
 # ---------------------------------------------------------------------------------------- R29 / R10 / R06 / R24
 M('R29-repeat-sense', 'R29',
   [('lp.py', "        sense2 = np.tile(support.sense[:num_rand], num_constr)", "        sense2 = np.repeat(support.sense[:num_rand], num_constr)")],
-  'sense2 layout')
+  'sense layout of block 1')
 M('R29-wrong-slice', 'R29',
   [('lp.py', "            sense3 = np.tile(support.sense[num_rand:], num_constr)", "            sense3 = np.tile(support.sense[:num_rand], num_constr)")],
-  'sense3 layout')
+  'sense layout of block 2')
 M('R10-depend-redefinition', 'R10',
   [('lp.py', "        if self.depend[row_ind, col_ind].any():\n            raise RuntimeError('Redefinition of adaptation is not allowed.')\n\n", "")],
   'lp.DecRule.adapt')
